@@ -47,9 +47,23 @@ type SkelSpec struct {
 	Calls []string `json:"calls"` // selector suffixes that count as effectful (e.g. "storage.Get", "mu.Lock")
 }
 
+// TableSpec: fields of the composite literal returned by a configuration constructor
+// (e.g. hybrid.DefaultConfig): string tables in source order (List String), integer /
+// duration fields (Nat) and boolean fields (Bool).
+type TableSpec struct {
+	Dir    string   `json:"dir"`
+	Func   string   `json:"func"`
+	NS     string   `json:"ns"`
+	Fields []string `json:"fields"`
+}
+
 type Spec struct {
 	Module  string     `json:"module"`  // output file Gen/<Module>.lean
 	Imports []string   `json:"imports"` // other Gen modules this one refers to
+	// LeanImports lists further (hand-written, core-only) modules to import, e.g. the
+	// module that defines the receiver structure of a translated predicate.
+	LeanImports []string    `json:"lean_imports"`
+	Tables      []TableSpec `json:"tables"`
 	Consts []ConstSpec `json:"consts"`
 	Preds  []PredSpec  `json:"preds"`
 	Skels  []SkelSpec  `json:"skels"`
@@ -261,6 +275,17 @@ func leanIdent(s string) string {
 	return strings.ReplaceAll(s, "-", "_")
 }
 
+// leanLocal quotes Go identifiers that are Lean keywords (e.g. a loop variable named `prefix`).
+func leanLocal(s string) string {
+	switch s {
+	case "prefix", "infix", "infixl", "infixr", "postfix", "notation", "end", "from", "at", "by", "do", "then", "else",
+		"fun", "have", "show", "open", "in", "instance", "local", "macro", "syntax", "section", "namespace", "where",
+		"with", "match", "let", "if", "export", "universe", "variable", "theorem", "def", "example", "deriving", "mutual":
+		return "\u00ab" + s + "\u00bb"
+	}
+	return s
+}
+
 // ---------------------------------------------------------------- predicates
 
 type predCtx struct {
@@ -291,7 +316,7 @@ func (c *predCtx) expr(e ast.Expr) string {
 			return "none"
 		}
 		if e.Name == c.recv || c.locals[e.Name] {
-			return e.Name
+			return leanLocal(e.Name)
 		}
 		if _, ok := c.p.consts[e.Name]; ok {
 			return c.spec.ConstNS + "." + e.Name
@@ -514,7 +539,7 @@ func (c *predCtx) stmts(list []ast.Stmt, indent string) string {
 					cond := c.expr(is.Cond)
 					res := c.expr(rs.Results[0])
 					delete(c.locals, v)
-					return indent + "if (" + c.expr(s.X) + ").any (fun " + v + " => " + cond + ") then " + res + "\n" + indent + "else\n" + c.stmts(rest, indent+"  ")
+					return indent + "if (" + c.expr(s.X) + ").any (fun " + leanLocal(v) + " => " + cond + ") then " + res + "\n" + indent + "else\n" + c.stmts(rest, indent+"  ")
 				}
 			}
 		}
@@ -623,6 +648,74 @@ func selStr(e ast.Expr) string {
 	return "?"
 }
 
+// ---------------------------------------------------------------- tables
+
+// genTable emits the listed fields of the (single) composite literal that the
+// function returns: []string{...} as List String, true/false as Bool, anything
+// else evaluated as a natural-number constant.
+func genTable(root string, ts *TableSpec, out *strings.Builder) {
+	p := loadPkg(root, ts.Dir)
+	fd, ok := p.funcs[ts.Func]
+	if !ok {
+		die("table: function %s not found in %s", ts.Func, ts.Dir)
+	}
+	var lit *ast.CompositeLit
+	n := 0
+	ast.Inspect(fd.Body, func(nd ast.Node) bool {
+		if rs, ok := nd.(*ast.ReturnStmt); ok && len(rs.Results) == 1 {
+			e := rs.Results[0]
+			if u, ok := e.(*ast.UnaryExpr); ok && u.Op == token.AND {
+				e = u.X
+			}
+			if cl, ok := e.(*ast.CompositeLit); ok {
+				lit = cl
+				n++
+			}
+		}
+		return true
+	})
+	if lit == nil || n != 1 {
+		die("table: %s must return exactly one composite literal (found %d)", ts.Func, n)
+	}
+	vals := map[string]ast.Expr{}
+	for _, el := range lit.Elts {
+		if kv, ok := el.(*ast.KeyValueExpr); ok {
+			if k, ok := kv.Key.(*ast.Ident); ok {
+				vals[k.Name] = kv.Value
+			}
+		}
+	}
+	fmt.Fprintf(out, "namespace %s\n", ts.NS)
+	for _, f := range ts.Fields {
+		e, ok := vals[f]
+		if !ok {
+			die("table: field %s not set in the literal returned by %s", f, ts.Func)
+		}
+		if cl, ok := e.(*ast.CompositeLit); ok {
+			items := []string{}
+			for _, el := range cl.Elts {
+				v := evalConst(p, el, 0, 0)
+				if !v.isStr {
+					die("table: field %s of %s: non-string element", f, ts.Func)
+				}
+				items = append(items, leanStr(v.s))
+			}
+			fmt.Fprintf(out, "def %s : List String := [%s]\n", leanIdent(f), strings.Join(items, ", "))
+			continue
+		}
+		if id, ok := e.(*ast.Ident); ok && (id.Name == "true" || id.Name == "false") {
+			fmt.Fprintf(out, "def %s : Bool := %s\n", leanIdent(f), id.Name)
+			continue
+		}
+		v := evalConst(p, e, 0, 0)
+		if v.isStr || v.isF || v.i < 0 {
+			die("table: field %s of %s is not a natural number", f, ts.Func)
+		}
+		fmt.Fprintf(out, "def %s : Nat := %d\n", leanIdent(f), v.i)
+	}
+	fmt.Fprintf(out, "end %s\n\n", ts.NS)
+}
+
 // ---------------------------------------------------------------- main
 
 func writeIfChanged(path, content string) {
@@ -645,7 +738,13 @@ func genModule(repo string, spec *Spec, outDir string) {
 	for _, im := range spec.Imports {
 		cs.WriteString("import TunnoxModel.Gen." + im + "\n")
 	}
+	for _, im := range spec.LeanImports {
+		cs.WriteString("import " + im + "\n")
+	}
 	cs.WriteString("open Tunnox.PredPrelude\nnamespace Gen\n\n")
+	for i := range spec.Tables {
+		genTable(repo, &spec.Tables[i], &cs)
+	}
 	for _, c := range spec.Consts {
 		p := loadPkg(repo, c.Dir)
 		fmt.Fprintf(&cs, "namespace %s\n", c.NS)
